@@ -93,6 +93,9 @@ def gen_c10(rng, idx, tier, faults):
             cv["as_mask"] = True  # folds given as boolean sample masks
         if rng.random() < 0.3:
             cv["pairs"].append([b, a])
+    elif r < 0.78:
+        # another splitter object: unequal, non-covering train/test sets
+        cv = {"type": "shufflesplit", "n_splits": rng.randint(1, 3), "test_size": rng.choice([0.3, 0.4, 0.5]), "random_state": rng.randrange(1000)}
     else:
         cv = {
             "type": "kfold",
@@ -189,6 +192,8 @@ class RidgeWorld:
                     folds = next(KFold(2, shuffle=p.get("shuffle", True), random_state=p.get("random_state") if p.get("shuffle", True) else None).split(X))
             elif cv["type"] == "int":
                 folds = next(KFold(int(cv["n_splits"])).split(X))
+            elif cv["type"] == "shufflesplit":
+                folds = None
             elif cv["type"] == "kfold":
                 if not cv["shuffle"] or isinstance(cv.get("random_state"), int):
                     folds = next(KFold(cv["n_splits"], shuffle=cv["shuffle"], random_state=cv.get("random_state")).split(X))
@@ -224,6 +229,10 @@ class RidgeWorld:
             return None
         if cv["type"] == "int":
             return int(cv["n_splits"])
+        if cv["type"] == "shufflesplit":
+            from sklearn.model_selection import ShuffleSplit
+
+            return ShuffleSplit(n_splits=cv["n_splits"], test_size=cv["test_size"], random_state=cv["random_state"])
         if cv["type"] == "kfold":
             return KFold(n_splits=cv["n_splits"], shuffle=cv["shuffle"], random_state=cv.get("random_state"))
         pairs = [(np.array(a, dtype=int), np.array(b, dtype=int)) for a, b in cv["pairs"]]
